@@ -264,7 +264,36 @@ def textOf (buf : Array Nat) (b e : Nat) : W Bytes :=
   if b = 0 ∨ e ≤ b ∨ e > buf.size then .panic
   else .ok (Utf8.encode (unescLoop (buf.getD (b - 1) 0) (slice buf b e)))
 
+/-- `string(p.buffer[n.begin:n.end])` of a non-nil node -/
+def rawText (buf : Array Nat) : T → W Bytes
+  | .nil => .panic
+  | .node _ b e _ _ => if e > buf.size ∨ b > e then .panic else .ok (Utf8.encode (slice buf b e))
+
+/-- an explicit field id (parseField, case ruleFieldId): `ParseInt(text, 10, 32)`, on error `ParseInt(text, 0, 32)`,
+`none` when both fail (parseField then returns an error) -/
+def fieldIdOf (s : Bytes) : Option Int :=
+  let (v, bad) := GoStrconv.parseInt s 10 32
+  if !bad then some v else
+  let (v0, bad0) := GoStrconv.parseInt s 0 32
+  if !bad0 then some v0 else none
+
+/-- an explicit enum value (parseEnum): `ParseInt(text, 0, 64)`, on error `ParseInt(text, 10, 64)`, `none` when both fail -/
+def enumValueOf (s : Bytes) : Option Int :=
+  let (v, bad) := GoStrconv.parseInt s 0 64
+  if !bad then some v else
+  let (v0, bad0) := GoStrconv.parseInt s 10 64
+  if !bad0 then some v0 else none
+
 variable (ids : Ids) (buf : Array Nat)
+
+/-- `for n := t; n != nil; n = n.next { if n.pegRule == rulePegText { … break } }`: the node the loop stops at, or nil -/
+def findCap : T → T
+  | .nil => .nil
+  | .node r b e up next => if r = ids.rPegText then .node r b e up next else findCap next
+
+/-- `strings.TrimRight(s, " \t\v")` -/
+def trimRightBlank (l : List Nat) : List Nat :=
+  (l.reverse.dropWhile (fun c => c = 32 ∨ c = 9 ∨ c = 11)).reverse
 
 /-- `(*parser).pegText` -/
 def pegText : T → W Bytes
@@ -420,8 +449,14 @@ def parseConstValue : Nat → T → W CV
     let node ← checkrule node ids.rConstValue
     let r ← rule? node
     if r = ids.rDoubleConstant then do
+      -- text := p.pegText(node); for n := node.up; n != nil; n = n.next { if n.pegRule == rulePegText { text = TrimRight(string(buffer[n.begin:n.end]), " \t\v"); break } }
       let s ← pegText ids buf node
-      pure (.dbl s)
+      let n ← up? node
+      let c := findCap ids n
+      if isNil c then pure (.dbl s)
+      else do
+        let t ← rawText buf c
+        pure (.dbl (trimRightBlank t))
     else if r = ids.rIntConstant then do
       let s ← pegText ids buf node
       let (v, bad) := GoStrconv.parseInt s 0 64
@@ -501,7 +536,10 @@ def fieldLoop (fuel : Nat) (f : Field) : T → W Field
       | .err => .err | .panic => .panic | .crash => .crash
     else if r = ids.rFieldId then
       match pegText ids buf node with
-      | .ok s => fieldLoop fuel { f with id := (GoStrconv.parseInt s 10 32).1 } next
+      | .ok s =>
+        match fieldIdOf s with
+        | some v => fieldLoop fuel { f with id := v } next
+        | none => .err
       | .err => .err | .panic => .panic | .crash => .crash
     else if r = ids.rFieldReq then
       match pegText ids buf node with
@@ -627,7 +665,9 @@ def enumValueAt (values : List EnumValue) (valueComments : Bytes) (n : T) : W (E
   let (value, n) ← (if r1 = ids.rEQUAL then do
       let n2 ← next? nx
       let s ← pegText ids buf n2
-      pure ((GoStrconv.parseInt s 0 64).1, n2)
+      match enumValueOf s with
+      | some v => pure (v, n2)
+      | none => .err
     else pure (implicitEnumValue values, n) : W (Int × T))
   let (r2, nx) ← peekNext n
   let (anns, n) ← (if r2 = ids.rAnnotations then do
@@ -829,7 +869,7 @@ def treeSize : T → Nat
 /-- `(*parser).parse` on the result of `p.AST()` -/
 def walk (root : T) : W Thrift :=
   match root with
-  | .nil => .err
+  | .nil => .ok {}          -- an empty document: no node at all
   | .node r _ _ up _ =>
     if r ≠ ids.rDocument then .err
     else docLoop ids buf (treeSize root + 1) {} up
